@@ -1,5 +1,6 @@
 import PPModel.Base.Sexp
 import PPModel.Mod.Entry
+import PPModel.Mod.LeftRec
 /-
   Driver handlers for the shared parse model.
 
@@ -120,6 +121,9 @@ def mkP (mode : List Sexp) (g : Grammar) (s : List Char) (fuel : Nat) : Option P
   -- packrat with any cache size: by `packrat_transparent` (Props/C02) the model's outcome under ANY cache content is
   -- the uncached outcome, so the prediction for the real packrat run is `parse` itself
   | [.atom "packrat", _] => some (parse g s fuel)
+  -- left-recursion mode: the seed-growing model (the memo capacity does not occur in it: retained entries of finished
+  -- Forwards are re-evaluations)
+  | [.atom "lr", _] => some (parseLR g s fuel [])
   | _ => none
 
 def parseHandle : List Sexp → Option Sexp
